@@ -111,4 +111,30 @@ def run (fix : Bool) (periods : List Period) : Nat → Nat → List Env → M (N
       | .error x => .error x
       | .ok (a, ms) => .ok (a, m :: ms)
 
+/-! ### histories with parameter edits
+
+  The reward-period list (clp key 0x06) is replaced by `MsgAddRewardPeriodRequest` at any time;
+  the accumulator (key 0x0b) is NOT touched by the message: it stays in the state across the
+  switch and is dropped only by the EndBlocker in the first block of a period. -/
+
+inductive Step where
+  | edit (ps : List Period)     -- an accepted AddRewardPeriod message: the whole list is replaced
+  | block (e : Env)             -- the EndBlocker of the next height
+  deriving Repr, Inhabited
+
+/-- what a block did: height, the period that was current, net amount created -/
+abbrev BlockObs := Nat × Option Period × Nat
+
+/-- state = (stored periods, height of the next EndBlocker, stored accumulator) -/
+def runSteps (fix : Bool) : List Period → Nat → Nat → List Step → M (Nat × List BlockObs)
+  | _, _, accu, [] => .ok (accu, [])
+  | _, h, accu, .edit ps' :: r => runSteps fix ps' h accu r
+  | ps, h, accu, .block e :: r =>
+    match endBlock fix ps h accu e with
+    | .error x => .error x
+    | .ok (accu', m) =>
+      match runSteps fix ps (h + 1) accu' r with
+      | .error x => .error x
+      | .ok (a, tr) => .ok (a, (h, currentPeriod ps h, m) :: tr)
+
 end Sif.Rewards
